@@ -44,10 +44,12 @@ func (f *Frame) siteAsserts(instr ssa.Instruction, cc *ssa.CallCommon, calleeNam
 		}
 	}
 	for _, a := range top.contract.Asserts {
-		if !strings.HasPrefix(a.Anchor, "call ") {
+		// "call? X": the same, but a function without any call of X satisfies the clause
+		// vacuously (for clauses of the form "X is called only when ...")
+		if !strings.HasPrefix(a.Anchor, "call ") && !strings.HasPrefix(a.Anchor, "call? ") {
 			continue
 		}
-		want := strings.TrimSpace(strings.TrimPrefix(a.Anchor, "call "))
+		want := strings.TrimSpace(strings.TrimPrefix(strings.TrimPrefix(a.Anchor, "call? "), "call "))
 		short := shortFuncName(calleeName)
 		if !(short == want || strings.HasSuffix(short, "/"+want) || strings.HasSuffix(short, "."+want) || strings.HasSuffix(short, want) && strings.HasPrefix(want, ".")) {
 			continue
